@@ -93,6 +93,20 @@ pub(crate) fn c11_boundary_definition() {
     vassert!(m.is_instruction_done() == is_first_fetch(cur_word(raw_of(&m))), "C11.B.def.machine-sees-the-same-boundary");
 }
 
+/// M.mode — switching the step mode touches nothing but the mode ("switching step mode at any point
+/// does not alter the computation": the machine state the next edges start from is the same).
+#[cfg_attr(kani, kani::proof)]
+pub(crate) fn c11_set_step_mode_frame() {
+    let mut m = any_machine();
+    vassume(wf_machine(&m));
+    let old = m.clone();
+    let mode = any_step_mode();
+    vcover!(mode != old.step_mode(), "pre.switch");
+    m.set_step_mode(mode);
+    vassert!(m.step_mode() == mode, "C11.M.mode.set");
+    vassert!(raw_same(raw_of(&m), raw_of(&old)), "C11.M.mode.machine-state-untouched");
+}
+
 /// In the stuck set (undefined first byte) the second edge is a fixpoint: nothing changes any more.
 #[cfg_attr(kani, kani::proof)]
 pub(crate) fn c11_stuck_is_fixpoint() {
@@ -174,4 +188,4 @@ pub(crate) fn c11_loop_logic() {}
 #[cfg(not(kani))]
 pub(crate) fn c11_canary() {}
 
-crate::replay_table!(verif_replay_c11; c11_boundary_definition, c11_real_mode_is_one_edge, c11_loop_logic, c11_stuck_is_fixpoint, c11_stuck_step_returns, c11_x_loop_logic_long, c11_canary,);
+crate::replay_table!(verif_replay_c11; c11_boundary_definition, c11_set_step_mode_frame, c11_real_mode_is_one_edge, c11_loop_logic, c11_stuck_is_fixpoint, c11_stuck_step_returns, c11_x_loop_logic_long, c11_canary,);
